@@ -450,7 +450,10 @@ func (s *State) evalDelete(node ast.Node) object.Object {
 		}
 		return s.env.Delete(name)
 	case token.DOT:
-		idxE := node.(*ast.IndexExpression)
+		idxE, ok := node.(*ast.IndexExpression)
+		if !ok {
+			return s.NewError("delete not supported on " + node.Value().Type().String())
+		}
 		// index is the string value and not an identifier to resolve.
 		key := idxE.Index.Value()
 		if key.Type() != token.STRING && key.Type() != token.IDENT {
@@ -460,7 +463,10 @@ func (s *State) evalDelete(node ast.Node) object.Object {
 		return s.deleteMapEntry(idxE, index)
 	case token.LBRACKET:
 		// Map/array [] index
-		idxE := node.(*ast.IndexExpression)
+		idxE, ok := node.(*ast.IndexExpression)
+		if !ok { // e.g. del([1]): an array literal also starts with [
+			return s.NewError("delete not supported on array literal")
+		}
 		index := s.Eval(idxE.Index)
 		if index.Type() == object.ERROR {
 			return index
